@@ -558,6 +558,11 @@ def run(case):
                 r = d.exec(b'CONT', poll_cap=20000)
                 out += r.out
                 w.stats['conts'] += 1
+            if conts >= 40 and r.out.rstrip(b'\r\n').split(b'\n')[-1].startswith(b'Break in '):
+                # more STOPs than the harness is prepared to answer: the trace is not complete, nothing is judged
+                run.probe('cont-cap-reached')
+                d.close()
+                return
             w.poll_hook = None
             # after the program ended: occurrences in direct mode must not start handlers
             tail = b''
